@@ -10,3 +10,451 @@ Open Scope bool_scope.
 
 Lemma code_shape_current : shape_matrix_code_modelled = true.
 Proof. reflexivity. Qed.
+
+Lemma as_raw_matrix_unrounded : shape_as_raw_matrix_unrounded = true.
+Proof. reflexivity. Qed.
+
+Lemma index_rounded : shape_index_rounded = true.
+Proof. reflexivity. Qed.
+
+(* ---------- lists ---------- *)
+
+Lemma list_set_length {A} (l : list A) : forall k v, length (list_set l k v) = length l.
+Proof.
+  induction l as [|x l IH]; intros k v; destruct k; cbn [list_set length]; try reflexivity.
+  rewrite IH. reflexivity.
+Qed.
+
+Lemma nth_list_set {A} (l : list A) : forall k i v d, (k < length l)%nat ->
+  nth i (list_set l k v) d = if Nat.eqb i k then v else nth i l d.
+Proof.
+  induction l as [|x l IH]; intros k i v d Hk; cbn [length] in Hk; [lia|].
+  destruct k; destruct i; cbn [list_set nth Nat.eqb]; try reflexivity.
+  apply IH. lia.
+Qed.
+
+Lemma Forall_list_set {A} (P : A -> Prop) (l : list A) : forall k v,
+  Forall P l -> P v -> Forall P (list_set l k v).
+Proof.
+  induction l as [|x l IH]; intros k v Hl Hv; destruct k; cbn [list_set]; try exact Hl.
+  - inversion Hl; subst. constructor; assumption.
+  - inversion Hl; subst. constructor; [assumption|]. apply IH; assumption.
+Qed.
+
+Lemma zrange_aux_length n : forall a, length (zrange_aux n a) = n.
+Proof. induction n as [|n IH]; intros a; cbn [zrange_aux length]; [reflexivity|]. rewrite IH. reflexivity. Qed.
+
+Lemma zrange_length a b : length (zrange a b) = Z.to_nat (b - a).
+Proof. unfold zrange. apply zrange_aux_length. Qed.
+
+Lemma zrange_aux_nth n : forall a k d, (k < n)%nat -> nth k (zrange_aux n a) d = a + Z.of_nat k.
+Proof.
+  induction n as [|n IH]; intros a k d Hk; [lia|].
+  destruct k; cbn [zrange_aux nth].
+  - lia.
+  - rewrite IH by lia. lia.
+Qed.
+
+Lemma zrange_nil a b : b <= a -> zrange a b = [].
+Proof. intros H. unfold zrange. replace (Z.to_nat (b - a)) with O by lia. reflexivity. Qed.
+
+Lemma zrange_nonempty a b : a < b -> zrange a b <> [].
+Proof.
+  intros H E. assert (L : length (zrange a b) = O) by (rewrite E; reflexivity).
+  rewrite zrange_length in L. lia.
+Qed.
+
+Lemma const_map_nth {A B} (v d : B) (l : list A) : forall k, (k < length l)%nat ->
+  nth k (map (fun _ => v) l) d = v.
+Proof.
+  induction l as [|x l IH]; intros k Hk; cbn [length] in Hk; [lia|].
+  destruct k; cbn [map nth]; [reflexivity|]. apply IH. lia.
+Qed.
+
+(* ---------- rounding ---------- *)
+
+(* round_half_even n d is a nearest integer to n/d, and the even one on a tie *)
+Lemma round_half_even_nearest n d : 0 < d ->
+  let z := round_half_even n d in
+  - d <= 2 * n - 2 * d * z <= d /\
+  ((2 * n - 2 * d * z = d \/ 2 * n - 2 * d * z = - d) -> Z.even z = true).
+Proof.
+  intros Hd. unfold round_half_even.
+  pose proof (Z.div_mod n d ltac:(lia)) as E.
+  pose proof (Z.mod_pos_bound n d Hd) as B.
+  set (q := n / d) in *. set (r := n mod d) in *.
+  assert (Hq1 : d * (q + 1) = d * q + d) by ring.
+  destruct (2 * r <? d) eqn:H1; [apply Z.ltb_lt in H1 | apply Z.ltb_ge in H1].
+  - cbv zeta. split; [lia|]. intros [H|H]; lia.
+  - destruct (d <? 2 * r) eqn:H2; [apply Z.ltb_lt in H2 | apply Z.ltb_ge in H2].
+    + cbv zeta. split; [lia|]. intros [H|H]; lia.
+    + destruct (Z.even q) eqn:Hev; cbv zeta.
+      * split; [lia|]. intros _. exact Hev.
+      * split; [lia|]. intros _. rewrite Z.even_add. rewrite Hev. reflexivity.
+Qed.
+
+Lemma round_half_even_int z d : 0 < d -> round_half_even (z * d) d = z.
+Proof.
+  intros Hd. unfold round_half_even.
+  rewrite Z.div_mul by lia. rewrite Z.mod_mul by lia.
+  destruct (2 * 0 <? d) eqn:H; [reflexivity|]. apply Z.ltb_ge in H. lia.
+Qed.
+
+(* adding one commutes with rounding except exactly half way between two integers *)
+Lemma round_succ n d : 0 < d -> 2 * (n mod d) <> d ->
+  round_half_even (n + d) d = round_half_even n d + 1.
+Proof.
+  intros Hd Hn. unfold round_half_even.
+  replace (n + d) with (n + 1 * d) by ring.
+  rewrite Z.div_add by lia. rewrite Z.mod_add by lia.
+  destruct (2 * (n mod d) <? d) eqn:H1; [reflexivity|].
+  destruct (d <? 2 * (n mod d)) eqn:H2; [ring|].
+  apply Z.ltb_ge in H1. apply Z.ltb_ge in H2. lia.
+Qed.
+
+Lemma to_index_rounded v : to_index v = Some (index_of v).
+Proof. destruct v as [z|n d]; cbn [to_index index_of py_round]; [reflexivity|]. rewrite index_rounded. reflexivity. Qed.
+
+Lemma idx2_rounded a b : idx2 a b = Some (option_map index_of a, option_map index_of b).
+Proof.
+  unfold idx2. destruct a as [a|]; destruct b as [b|]; cbn [option_map];
+    repeat rewrite to_index_rounded; reflexivity.
+Qed.
+
+(* ---------- Python list indexing ---------- *)
+
+Definition idx_ok (n i : Z) : Prop := - n <= i < n.
+
+Lemma py_idx_ok n i : idx_ok n i -> py_idx n i = Some (Z.to_nat (wrap n i)) /\ 0 <= wrap n i < n.
+Proof.
+  unfold idx_ok, py_idx, wrap. intros H.
+  destruct (i <? 0) eqn:Hi; [apply Z.ltb_lt in Hi | apply Z.ltb_ge in Hi].
+  - destruct ((0 <=? i + n) && (i + n <? n)) eqn:Hb.
+    + split; [reflexivity|lia].
+    + apply andb_false_iff in Hb. destruct Hb as [Hb|Hb]; [apply Z.leb_gt in Hb | apply Z.ltb_ge in Hb]; lia.
+  - destruct ((0 <=? i) && (i <? n)) eqn:Hb.
+    + split; [reflexivity|lia].
+    + apply andb_false_iff in Hb. destruct Hb as [Hb|Hb]; [apply Z.leb_gt in Hb | apply Z.ltb_ge in Hb]; lia.
+Qed.
+
+Lemma py_idx_bad n i : 0 <= n -> ~ idx_ok n i -> py_idx n i = None.
+Proof.
+  unfold idx_ok, py_idx, wrap. intros Hn H.
+  destruct (i <? 0) eqn:Hi; [apply Z.ltb_lt in Hi | apply Z.ltb_ge in Hi].
+  - destruct ((0 <=? i + n) && (i + n <? n)) eqn:Hb; [|reflexivity].
+    apply andb_true_iff in Hb. destruct Hb as [H1 H2]. apply Z.leb_le in H1. apply Z.ltb_lt in H2. lia.
+  - destruct ((0 <=? i) && (i <? n)) eqn:Hb; [|reflexivity].
+    apply andb_true_iff in Hb. destruct Hb as [H1 H2]. apply Z.leb_le in H1. apply Z.ltb_lt in H2. lia.
+Qed.
+
+Definition hits (n : Z) (xs : list Z) (x : Z) : Prop := exists y, In y xs /\ x = wrap n y.
+
+Lemma hits_dec n xs x : hits n xs x \/ ~ hits n xs x.
+Proof.
+  induction xs as [|a xs IH].
+  - right. intros [y [[] _]].
+  - destruct (Z.eq_dec x (wrap n a)) as [E|E].
+    + left. exists a. split; [left; reflexivity|exact E].
+    + destruct IH as [[y [Hy Ey]]|IH].
+      * left. exists y. split; [right; exact Hy|exact Ey].
+      * right. intros [y [[Hy|Hy] Ey]]; [subst y; exact (E Ey)|apply IH; exists y; split; assumption].
+Qed.
+
+Lemma idx_ok_dec n i : idx_ok n i \/ ~ idx_ok n i.
+Proof. unfold idx_ok. destruct (Z_le_dec (- n) i); destruct (Z_lt_dec i n); (left; lia) || (right; lia). Qed.
+
+Lemma all_ok_or_bad n xs : Forall (idx_ok n) xs \/ Exists (fun y => ~ idx_ok n y) xs.
+Proof.
+  induction xs as [|x xs IH]; [left; constructor|].
+  destruct (idx_ok_dec n x) as [Hx|Hx].
+  - destruct IH as [IH|IH]; [left; constructor; assumption|right; apply Exists_cons_tl; exact IH].
+  - right. apply Exists_cons_hd. exact Hx.
+Qed.
+
+Section Proofs.
+Variable C : Type.
+Variable std : C -> C.
+Variable conv : mode -> C -> C.
+Variable switch : mode -> mode -> C -> C.
+Variable black : C.
+
+Notation rows_t := (list (list (option C))).
+Notation cmatrix := (cmatrix C).
+Notation state := (state C).
+Notation cmd := (cmd C).
+Notation stage := (stage C).
+Notation set_cell := (set_cell C).
+Notation set_cols := (set_cols C).
+Notation set_rows := (set_rows C).
+Notation overlay_color := (overlay_color C).
+Notation exec := (exec C std conv switch black).
+Notation run := (run C std conv switch black).
+Notation compile_stage := (compile_stage C).
+Notation compile_stmt := (compile_stmt C).
+Notation compile := (compile C).
+Notation stage_operand := (stage_operand C).
+
+(* ---------- the matrix as a function of (row, column) ---------- *)
+
+Definition cell (rows : rows_t) (r c : Z) : option C :=
+  nth (Z.to_nat c) (nth (Z.to_nat r) rows []) None.
+
+Definition wf (h w : Z) (rows : rows_t) : Prop :=
+  0 <= h /\ 0 <= w /\ length rows = Z.to_nat h /\ Forall (fun r => length r = Z.to_nat w) rows.
+
+Lemma wf_row_length h w rows i : wf h w rows -> (i < Z.to_nat h)%nat -> length (nth i rows []) = Z.to_nat w.
+Proof.
+  intros (Hh & Hw & Hl & Hf) Hi.
+  rewrite Forall_forall in Hf. apply Hf. apply nth_In. lia.
+Qed.
+
+Lemma new_from_constant_wf h w v : 0 <= h -> 0 <= w -> wf h w (m_rows (new_from_constant C h w v)).
+Proof.
+  intros Hh Hw. cbn [new_from_constant m_rows]. repeat split; try assumption.
+  - rewrite map_length, zrange_length. f_equal. lia.
+  - apply Forall_forall. intros r Hr. apply in_map_iff in Hr. destruct Hr as [x [Hx _]]. subst r.
+    rewrite map_length, zrange_length. f_equal. lia.
+Qed.
+
+Lemma new_from_constant_cell h w v r c : 0 <= r < h -> 0 <= c < w ->
+  cell (m_rows (new_from_constant C h w v)) r c = v.
+Proof.
+  intros Hr Hc. unfold cell. cbn [new_from_constant m_rows].
+  assert (Lr : (Z.to_nat r < length (zrange 0 h))%nat) by (rewrite zrange_length; lia).
+  assert (Lc : (Z.to_nat c < length (zrange 0 w))%nat) by (rewrite zrange_length; lia).
+  rewrite (nth_indep _ [] (map (fun _ => v) (zrange 0 w))) by (rewrite map_length; exact Lr).
+  rewrite (const_map_nth (map (fun _ : Z => v) (zrange 0 w)) (map (fun _ : Z => v) (zrange 0 w)) (zrange 0 h)) by exact Lr.
+  apply const_map_nth. exact Lc.
+Qed.
+
+(* ---------- one cell assignment ---------- *)
+
+Lemma set_cell_ok h w rows row col v :
+  wf h w rows -> idx_ok h row -> idx_ok w col ->
+  exists rows', set_cell rows row col v = Some rows' /\ wf h w rows' /\
+    forall r c, 0 <= r < h -> 0 <= c < w ->
+      cell rows' r c = if (r =? wrap h row) && (c =? wrap w col) then v else cell rows r c.
+Proof.
+  intros Hwf Hrow Hcol.
+  destruct Hwf as (Hh & Hw & Hl & Hf).
+  destruct (py_idx_ok h row Hrow) as [Pr Br].
+  destruct (py_idx_ok w col Hcol) as [Pc Bc].
+  unfold set_cell. rewrite Hl. rewrite Z2Nat.id by lia. rewrite Pr.
+  set (i := Z.to_nat (wrap h row)).
+  assert (Hi : (i < Z.to_nat h)%nat) by (unfold i; lia).
+  assert (Lrow : length (nth i rows []) = Z.to_nat w).
+  { apply (wf_row_length h w); [repeat split; assumption|exact Hi]. }
+  rewrite Lrow. rewrite Z2Nat.id by lia. rewrite Pc.
+  set (j := Z.to_nat (wrap w col)).
+  assert (Hj : (j < Z.to_nat w)%nat) by (unfold j; lia).
+  eexists. split; [reflexivity|]. split.
+  - repeat split; try assumption.
+    + rewrite list_set_length. exact Hl.
+    + apply Forall_list_set; [exact Hf|]. rewrite list_set_length. exact Lrow.
+  - intros r c Hr Hc. unfold cell.
+    rewrite nth_list_set by lia.
+    destruct (r =? wrap h row) eqn:Er; [apply Z.eqb_eq in Er | apply Z.eqb_neq in Er].
+    + replace (Nat.eqb (Z.to_nat r) i) with true by (symmetry; apply Nat.eqb_eq; unfold i; lia).
+      rewrite nth_list_set by lia.
+      destruct (c =? wrap w col) eqn:Ec; [apply Z.eqb_eq in Ec | apply Z.eqb_neq in Ec]; cbn [andb].
+      * replace (Nat.eqb (Z.to_nat c) j) with true by (symmetry; apply Nat.eqb_eq; unfold j; lia). reflexivity.
+      * replace (Nat.eqb (Z.to_nat c) j) with false by (symmetry; apply Nat.eqb_neq; unfold j; lia).
+        unfold i. rewrite <- Er. reflexivity.
+    + replace (Nat.eqb (Z.to_nat r) i) with false by (symmetry; apply Nat.eqb_neq; unfold i; lia).
+      reflexivity.
+Qed.
+
+Lemma set_cell_bad h w rows row col v :
+  wf h w rows -> (~ idx_ok h row \/ (idx_ok h row /\ ~ idx_ok w col)) -> set_cell rows row col v = None.
+Proof.
+  intros Hwf Hbad. destruct Hwf as (Hh & Hw & Hl & Hf).
+  unfold set_cell. rewrite Hl. rewrite Z2Nat.id by lia.
+  destruct Hbad as [Hr | [Hr Hc]].
+  - rewrite (py_idx_bad h row Hh Hr). reflexivity.
+  - destruct (py_idx_ok h row Hr) as [Pr Br]. rewrite Pr.
+    rewrite (wf_row_length h w) by (try (repeat split; assumption); lia).
+    rewrite Z2Nat.id by lia. rewrite (py_idx_bad w col Hw Hc). reflexivity.
+Qed.
+
+(* ---------- the two loops ---------- *)
+
+Lemma set_cols_ok h w row v cols : forall rows,
+  wf h w rows -> idx_ok h row -> Forall (idx_ok w) cols ->
+  exists rows', set_cols rows row cols v = Some rows' /\ wf h w rows' /\
+    forall r c, 0 <= r < h -> 0 <= c < w ->
+      (r = wrap h row /\ hits w cols c -> cell rows' r c = v) /\
+      (~ (r = wrap h row /\ hits w cols c) -> cell rows' r c = cell rows r c).
+Proof.
+  induction cols as [|x cols IH]; intros rows Hwf Hrow Hcols; cbn [set_cols].
+  - exists rows. split; [reflexivity|]. split; [exact Hwf|].
+    intros r c Hr Hc. split.
+    + intros [_ [y [[] _]]].
+    + reflexivity.
+  - inversion Hcols as [|? ? Hx Hrest]; subst.
+    destruct (set_cell_ok h w rows row x v Hwf Hrow Hx) as (rows1 & E1 & W1 & C1).
+    rewrite E1.
+    destruct (IH rows1 W1 Hrow Hrest) as (rows2 & E2 & W2 & C2).
+    exists rows2. split; [exact E2|]. split; [exact W2|].
+    intros r c Hr Hc. destruct (C2 r c Hr Hc) as [C2a C2b]. specialize (C1 r c Hr Hc).
+    split.
+    + intros [Er [y [Hy Ey]]].
+      destruct (hits_dec w cols c) as [Hh|Hn].
+      * apply C2a. split; assumption.
+      * rewrite C2b by (intros [_ Hh]; exact (Hn Hh)).
+        destruct Hy as [Hy|Hy]; [|exfalso; apply Hn; exists y; split; assumption].
+        subst y. rewrite C1. rewrite Er, Ey. rewrite !Z.eqb_refl. reflexivity.
+    + intros Hn.
+      rewrite C2b by (intros [Er [y [Hy Ey]]]; apply Hn; split; [exact Er|exists y; split; [right; exact Hy|exact Ey]]).
+      rewrite C1.
+      destruct (r =? wrap h row) eqn:Er; [apply Z.eqb_eq in Er|reflexivity].
+      destruct (c =? wrap w x) eqn:Ec; [apply Z.eqb_eq in Ec|reflexivity].
+      exfalso. apply Hn. split; [exact Er|]. exists x. split; [left; reflexivity|exact Ec].
+Qed.
+
+Lemma set_rows_nil_cols rws v : forall rows, set_rows rows rws [] v = Some rows.
+Proof. induction rws as [|x rws IH]; intros rows; cbn [set_rows set_cols]; [reflexivity|apply IH]. Qed.
+
+Lemma set_rows_ok h w v cols rws : forall rows,
+  wf h w rows -> Forall (idx_ok h) rws -> Forall (idx_ok w) cols ->
+  exists rows', set_rows rows rws cols v = Some rows' /\ wf h w rows' /\
+    forall r c, 0 <= r < h -> 0 <= c < w ->
+      (hits h rws r /\ hits w cols c -> cell rows' r c = v) /\
+      (~ (hits h rws r /\ hits w cols c) -> cell rows' r c = cell rows r c).
+Proof.
+  induction rws as [|x rws IH]; intros rows Hwf Hrws Hcols; cbn [set_rows].
+  - exists rows. split; [reflexivity|]. split; [exact Hwf|].
+    intros r c Hr Hc. split.
+    + intros [[y [[] _]] _].
+    + reflexivity.
+  - inversion Hrws as [|? ? Hx Hrest]; subst.
+    destruct (set_cols_ok h w x v cols rows Hwf Hx Hcols) as (rows1 & E1 & W1 & C1).
+    rewrite E1.
+    destruct (IH rows1 W1 Hrest Hcols) as (rows2 & E2 & W2 & C2).
+    exists rows2. split; [exact E2|]. split; [exact W2|].
+    intros r c Hr Hc. destruct (C2 r c Hr Hc) as [C2a C2b]. destruct (C1 r c Hr Hc) as [C1a C1b].
+    split.
+    + intros [[y [Hy Ey]] Hcc].
+      destruct (hits_dec h rws r) as [Hh|Hn].
+      * apply C2a. split; assumption.
+      * rewrite C2b by (intros [Hh _]; exact (Hn Hh)).
+        destruct Hy as [Hy|Hy]; [|exfalso; apply Hn; exists y; split; assumption].
+        subst y. apply C1a. split; assumption.
+    + intros Hn.
+      rewrite C2b by (intros [[y [Hy Ey]] Hcc]; apply Hn; split; [exists y; split; [right; exact Hy|exact Ey]|exact Hcc]).
+      apply C1b. intros [Er Hcc]. apply Hn. split; [exists x; split; [left; reflexivity|exact Er]|exact Hcc].
+Qed.
+
+(* an index outside [-n, n) raises IndexError as soon as a cell is touched *)
+Lemma set_cols_bad_row h w rows row cols v :
+  wf h w rows -> ~ idx_ok h row -> cols <> [] -> set_cols rows row cols v = None.
+Proof.
+  intros Hwf Hrow Hne. destruct cols as [|x cols]; [contradiction|]. cbn [set_cols].
+  rewrite (set_cell_bad h w) by (try exact Hwf; left; exact Hrow). reflexivity.
+Qed.
+
+Lemma set_cols_bad_col h w row v cols : forall rows,
+  wf h w rows -> idx_ok h row -> Exists (fun y => ~ idx_ok w y) cols -> set_cols rows row cols v = None.
+Proof.
+  induction cols as [|x cols IH]; intros rows Hwf Hrow Hex; [inversion Hex|]. cbn [set_cols].
+  destruct (idx_ok_dec w x) as [Hx|Hx].
+  - destruct (set_cell_ok h w rows row x v Hwf Hrow Hx) as (rows1 & E1 & W1 & _). rewrite E1.
+    apply IH; [exact W1|exact Hrow|]. inversion Hex; subst; [contradiction|assumption].
+  - rewrite (set_cell_bad h w) by (try exact Hwf; right; split; assumption). reflexivity.
+Qed.
+
+Lemma set_rows_bad h w v cols rws : forall rows,
+  wf h w rows -> cols <> [] ->
+  (Exists (fun x => ~ idx_ok h x) rws \/ (rws <> [] /\ Exists (fun y => ~ idx_ok w y) cols)) ->
+  set_rows rows rws cols v = None.
+Proof.
+  induction rws as [|x rws IH]; intros rows Hwf Hne Hbad.
+  - destruct Hbad as [Hbad|[Hbad _]]; [inversion Hbad|contradiction].
+  - cbn [set_rows].
+    destruct (idx_ok_dec h x) as [Hx|Hx].
+    + destruct (all_ok_or_bad w cols) as [Hall|Hex].
+      * destruct (set_cols_ok h w x v cols rows Hwf Hx Hall) as (rows1 & E1 & W1 & _). rewrite E1.
+        apply IH; [exact W1|exact Hne|].
+        destruct Hbad as [Hbad|[_ Hbad]].
+        -- left. inversion Hbad; subst; [contradiction|assumption].
+        -- exfalso. apply Exists_exists in Hbad. destruct Hbad as [y [Hy Hny]].
+           rewrite Forall_forall in Hall. exact (Hny (Hall y Hy)).
+      * rewrite (set_cols_bad_col h w x v cols rows Hwf Hx Hex). reflexivity.
+    + rewrite (set_cols_bad_row h w rows x cols v Hwf Hx Hne). reflexivity.
+Qed.
+
+(* ---------- overlay_color ---------- *)
+
+Definition reg_first (cl : option clause) : option num :=
+  match cl with Some c => Some (c_first c) | None => None end.
+Definition reg_last (cl : option clause) : option num :=
+  match cl with Some c => c_last c | None => None end.
+
+Lemma norm_clause cl n :
+  norm_pair (option_map index_of (reg_first cl)) (option_map index_of (reg_last cl)) n = clause_range cl n.
+Proof. destruct cl as [[a [b|]]|]; reflexivity. Qed.
+
+Lemma zrange_Forall_ok n a b : - n <= a -> b <= n -> Forall (idx_ok n) (zrange a b).
+Proof. intros Ha Hb. apply Forall_forall. intros x Hx. apply zrange_In in Hx. unfold idx_ok. lia. Qed.
+
+(* Whatever the rectangle (empty ranges, or indices inside [-h, h) x [-w, w)): overlay_color
+   succeeds and writes exactly the cells (wrap h x, wrap w y), x in top..bottom, y in left..right. *)
+Lemma overlay_ok (m : cmatrix) top bottom left right col t b l r :
+  let h := m_height m in let w := m_width m in
+  wf h w (m_rows m) ->
+  norm_pair (option_map index_of top) (option_map index_of bottom) h = (t, b) ->
+  norm_pair (option_map index_of left) (option_map index_of right) w = (l, r) ->
+  (b < t \/ r < l \/ (- h <= t /\ b < h /\ - w <= l /\ r < w)) ->
+  exists m', overlay_color m top bottom left right col = Some m' /\
+    m_height m' = h /\ m_width m' = w /\ wf h w (m_rows m') /\
+    forall rr cc, 0 <= rr < h -> 0 <= cc < w ->
+      (hits h (zrange t (b + 1)) rr /\ hits w (zrange l (r + 1)) cc -> cell (m_rows m') rr cc = Some col) /\
+      (~ (hits h (zrange t (b + 1)) rr /\ hits w (zrange l (r + 1)) cc) -> cell (m_rows m') rr cc = cell (m_rows m) rr cc).
+Proof.
+  intros h w Hwf Hrows Hcols Hguard.
+  unfold overlay_color. rewrite idx2_rounded. fold h. rewrite Hrows.
+  destruct (zrange t (b + 1)) as [|z0 zs] eqn:Erows.
+  - exists m. split; [reflexivity|]. split; [reflexivity|]. split; [reflexivity|]. split; [exact Hwf|].
+    intros rr cc _ _. split; [intros [[y [[] _]] _]|reflexivity].
+  - rewrite <- Erows. rewrite idx2_rounded. fold w. rewrite Hcols.
+    assert (Htb : t <= b).
+    { destruct (Z_lt_dec b t) as [Hlt|]; [|lia]. rewrite zrange_nil in Erows by lia. discriminate. }
+    destruct (Z_lt_dec r l) as [Hrl|Hrl].
+    + rewrite (zrange_nil l (r + 1)) by lia. rewrite set_rows_nil_cols.
+      eexists. split; [reflexivity|]. cbn [m_height m_width m_rows].
+      split; [reflexivity|]. split; [reflexivity|]. split; [exact Hwf|].
+      intros rr cc _ _. split; [intros [_ [y [[] _]]]|reflexivity].
+    + destruct Hguard as [Hg|[Hg|Hg]]; try lia.
+      destruct (set_rows_ok h w (Some col) (zrange l (r + 1)) (zrange t (b + 1)) (m_rows m) Hwf)
+        as (rows' & E & W & Cs).
+      * apply zrange_Forall_ok; lia.
+      * apply zrange_Forall_ok; lia.
+      * rewrite E. eexists. split; [reflexivity|]. cbn [m_height m_width m_rows].
+        split; [reflexivity|]. split; [reflexivity|]. split; [exact W|]. exact Cs.
+Qed.
+
+(* non-empty ranges with an index outside [-h, h) x [-w, w): IndexError *)
+Lemma overlay_bad (m : cmatrix) top bottom left right col t b l r :
+  let h := m_height m in let w := m_width m in
+  wf h w (m_rows m) ->
+  norm_pair (option_map index_of top) (option_map index_of bottom) h = (t, b) ->
+  norm_pair (option_map index_of left) (option_map index_of right) w = (l, r) ->
+  t <= b -> l <= r -> (t < - h \/ h <= b \/ l < - w \/ w <= r) ->
+  overlay_color m top bottom left right col = None.
+Proof.
+  intros h w Hwf Hrows Hcols Htb Hlr Hout.
+  unfold overlay_color. rewrite idx2_rounded. fold h. rewrite Hrows.
+  destruct (zrange t (b + 1)) as [|z0 zs] eqn:Erows.
+  - exfalso. apply (zrange_nonempty t (b + 1)); [lia|exact Erows].
+  - rewrite <- Erows. rewrite idx2_rounded. fold w. rewrite Hcols.
+    rewrite (set_rows_bad h w); [reflexivity|exact Hwf|apply zrange_nonempty; lia|].
+    destruct (Z_lt_dec t (- h)) as [H1|H1].
+    { left. apply Exists_exists. exists t. split; [apply zrange_In; lia|unfold idx_ok; lia]. }
+    destruct (Z_le_dec h b) as [H2|H2].
+    { left. apply Exists_exists. exists b. split; [apply zrange_In; lia|unfold idx_ok; lia]. }
+    right. split; [apply zrange_nonempty; lia|].
+    destruct (Z_lt_dec l (- w)) as [H3|H3].
+    { apply Exists_exists. exists l. split; [apply zrange_In; lia|unfold idx_ok; lia]. }
+    apply Exists_exists. exists r. split; [apply zrange_In; lia|unfold idx_ok; lia].
+Qed.
+
+End Proofs.
